@@ -138,8 +138,12 @@ func c20ThroughCacheOn(t *testing.T, w *mc.Worker, dir string, restored bool) {
 				}
 			}
 			id := fmt.Sprintf("cur%d", n)
+			// the OOM score adjustment the runtime reports: ordinary Burstable values, the fixed value kubelet gives every
+			// container of a node-critical pod whatever its QoS class (-997), or none at all
+			adjs := []*nri.OptionalInt{{Value: 900}, {Value: -997}, {Value: 3}, {Value: 999}, nil}
+			adj := adjs[(fi+n)%len(adjs)]
 			c, err := cch.InsertContainer(&nri.Container{Id: id, PodSandboxId: "p", Name: "c", State: nri.ContainerState_CONTAINER_CREATED,
-				Linux: &nri.LinuxContainer{Resources: encode(req, 2*req), OomScoreAdj: &nri.OptionalInt{Value: 900}}})
+				Linux: &nri.LinuxContainer{Resources: encode(req, 2*req), OomScoreAdj: adj}})
 			if err != nil {
 				t.Fatalf("%v", err)
 			}
@@ -149,7 +153,10 @@ func c20ThroughCacheOn(t *testing.T, w *mc.Worker, dir string, restored bool) {
 			if kubernetes.MilliCPUToShares(req) == kubernetes.MinShares {
 				tol = 2
 			}
-			in := fmt.Sprintf("through-cache:%s:req=%d:lim=%d", hist, req, 2*req)
+			in := fmt.Sprintf("through-cache:%s:req=%d:lim=%d:oomadj=%v", hist, req, 2*req, adj.GetValue())
+			if adj == nil {
+				in += "(absent)"
+			}
 			if d := gr - req; d > tol || d < -tol || (req%125 == 0 && d != 0) {
 				w.Report(mc.Violation{Property: "C20", Oracle: "cache-request-reconstruction", Signature: "cache-request-reconstruction:" + hist, Scenario: "cache", Trace: []string{in},
 					Detail: fmt.Sprintf("container inserted with cpu.shares for %dm reports a request of %dm", req, gr)})
